@@ -151,8 +151,18 @@ def run(prog, ctx):
                   "no assertion self.start < %s < self.end dominates the construction of the children: a degenerate or outside midpoint "
                   "produces overlapping / empty intervals" % show(e1))
         # exactly these two are returned
+        # the returned list holds exactly the two constructed children: built by two appends, or written as a list literal
         apps = [x for x in R.calls_in(rf.node, method="append")]
-        okr = len(apps) == 2 and all(x.args and x.args[0] in ctors for x in apps)
+        elems = [x.args[0] for x in apps if x.args]
+        for st_ in walk_local(rf.node):
+            if isinstance(st_, ast.Assign) and isinstance(st_.value, (ast.List, ast.Tuple)) and st_.value.elts \
+                    and any(e in ctors for e in st_.value.elts):
+                elems += list(st_.value.elts)
+        for r_ in R.return_paths(rf)[0]:
+            v_ = r_.ast.value.elts[0] if isinstance(r_.ast.value, ast.Tuple) and r_.ast.value.elts else r_.ast.value
+            if isinstance(v_, (ast.List, ast.Tuple)) and any(e in ctors for e in v_.elts):
+                elems += list(v_.elts)
+        okr = len(elems) == 2 and all(e in ctors for e in elems) and elems[0] is not elems[1]
         ctx.check(okr, "C06.D1", R.key_of(rf, "returns-both"), rf.loc(), "exactly the two children are returned",
                   "refine() does not return exactly its two children")
 
@@ -229,12 +239,15 @@ def run(prog, ctx):
     tmu = Terms(uc.node, max_depth=0)
     d_par, cont_par = uc.params[2], uc.params[1]
     okst = False
+    cu_ = cfg_of(uc)
+    cl_value = None            # (object term, value term) of the coarsening-level store
     for s in R.attribute_stores(uc.node):
         if s.attr == "coarsening_level" and s.kind == "plain":
-            t = tmu.term(s.value)
+            t = R.resolve_locals(uc, tmu.term(s.value), cu_.node_of(s.stmt), tmu)       # looks through `lmax_d = self.lmax[d]` etc.
             obj = tmu.term(s.base)
             want = ("op", "Sub", (("s", ("a", ("n", "self"), "lmax"), ("n", d_par)), ("call", ("n", "max"), (("a", obj, "levels"),), ())))
             okst = t == want
+            cl_value = (obj, want)
     ctx.check(okst, "C06.D4", R.key_of(uc, "coarsening-definition"), uc.loc(),
               "coarsening level = lmax[d] - max(levels) of the same object",
               "update_coarsening_values no longer stores self.lmax[d] - max(object.levels) into that object's coarsening_level")
@@ -253,11 +266,21 @@ def run(prog, ctx):
         okret = acc is not None
         inits = [b for b in tmu.env.bindings.get(acc, []) if b.kind == "assign"]
         zero_init = any(tmu.term(b.value) == ("c", "0") for b in inits)
-        mins = [b for b in inits if tmu.term(b.value)[0] == "a" and tmu.term(b.value)[2] == "coarsening_level"]
+
+        def quantity(term, at):
+            """the coarsening level of the current object, however it is spelt (attribute read back, local copy, formula)"""
+            r = R.resolve_locals(uc, term, at, tmu)
+            if cl_value is not None and r == ("a", cl_value[0], "coarsening_level"):
+                return cl_value[1]
+            return r
         okmin = False
-        for b in mins:
-            guards = [g for (g, gn) in R.dominating_guards(uc, cfg_of(uc).node_of(b.stmt), tmu) if gn.kind == "test"]
-            if any(g[0] == "cmp" and g[1] == "Lt" and g[3] == ("n", acc) and g[2] == tmu.term(b.value) for g in guards):
+        for b in inits:
+            bn = cu_.node_of(b.stmt)
+            v = quantity(tmu.term(b.value), bn)
+            if cl_value is None or v != cl_value[1]:
+                continue
+            guards = [(g, gn) for (g, gn) in R.dominating_guards(uc, bn, tmu) if gn.kind == "test"]
+            if any(g[0] == "cmp" and g[1] == "Lt" and g[3] == ("n", acc) and quantity(g[2], gn) == cl_value[1] for (g, gn) in guards):
                 okmin = True
         okret = okret and zero_init and okmin
     ctx.check(okret, "C06.D4", R.key_of(uc, "returns-deficit"), uc.loc(),
